@@ -10,4 +10,6 @@ mkdir -p .build
 for c in replay replay_net replay_tsig replay_sign; do
   (cd $c && cp /repo/Cargo.lock . 2>/dev/null; CARGO_TARGET_DIR=../.build/$c cargo build --offline -q --bins >/dev/null 2>&1 || true; CARGO_TARGET_DIR=../.build/$c cargo build --offline -q --release --bins >/dev/null 2>&1 || true)
 done
+# warm the in-crate native test target (private validator items through the verif_native hook)
+(cd /repo && RUSTFLAGS="--cfg nlnetlabs_domain_verif" CARGO_TARGET_DIR=/verif/.build/incrate-native cargo test --offline --lib --no-run -q --features bytes,ring,unstable-sign,unstable-validator,unstable-stelline,unstable-zonetree,tokio-stream,net >/dev/null 2>&1 || true)
 echo "setup done"
